@@ -35,7 +35,7 @@ SETTERS = {"tsft": 0, "flags": 1, "rate": 2, "channel": 3, "dbm_signal": 5, "dbm
            "antenna": 11, "db_signal": 12, "rx_flags": 14, "tx_flags": 15, "data_retries": 17, "xchannel": 18, "mcs": 19}
 NAMES = list(SETTERS)
 UNSET_IN_DEFAULT = ["rate", "dbm_noise", "signal_quality", "db_signal", "tx_flags", "data_retries", "xchannel", "mcs"]
-CASE_START = ("new", "parse")
+CASE_START = ("new", "parse", "walk", "skipto")
 # valid 802.11 frames that libtins parses and re-serialises byte for byte
 INNER = ["0800" + "00" * 22,
          "0841" + "2c00" + "112233445566" + "aabbccddeeff" + "010203040506" + "1000" + "deadbeef",
@@ -166,6 +166,118 @@ def mutated_case(rng):
     return ops
 
 
+def enc_fields(m, at):
+    """the fields of one present word laid out from payload offset `at` (alignment counted from the header start)"""
+    out = bytearray()
+    for b in sorted(m):
+        while (at + len(out) + 4) % META[b][1]:
+            out.append(0)
+        out += m[b]
+    return bytes(out)
+
+
+def rand_fields(rng, p=None):
+    p = rng.choice([0.1, 0.3, 0.6]) if p is None else p
+    m = {b: rand_value(rng, b) for b in range(22) if rng.random() < p}
+    if 1 in m:
+        m[1] = bytes([m[1][0] & 0xbf])
+    return m
+
+
+def build_options(rng, shape=None):
+    """an options buffer with a chain of 1..4 present words.  shape: 'inert' = the later words announce no field
+    libtins knows (empty, unknown bits, namespace bits only), 'live' = the last word carries known field bits and the
+    fields follow those of the first word, None = either.  Returns (bytes, description)."""
+    shape = shape or rng.choice(["inert", "inert", "live"])
+    k = rng.choice([0, 0, 1, 1, 1, 2, 3])
+    m0 = rand_fields(rng)
+    if rng.random() < 0.1:
+        m0 = {}
+    w0 = sum(1 << b for b in m0)
+    if rng.random() < 0.2:
+        w0 |= rng.getrandbits(7) << 22                       # fields this parser has no table entry for
+    words = [w0]
+    mk = {}
+    for i in range(k):
+        words[-1] |= 1 << 31
+        r = rng.random()
+        if r < 0.45:
+            words[-1] |= 1 << 29                              # next word: radiotap namespace
+        elif r < 0.75:
+            words[-1] |= 1 << 30                              # next word: vendor namespace
+        if i == k - 1:
+            if shape == "live":
+                mk = rand_fields(rng, 0.25) or {11: b"\x07"}
+                w = sum(1 << b for b in mk) | (rng.getrandbits(7) << 22 if rng.random() < 0.2 else 0)
+            else:
+                w = rng.choice([0, 0, rng.getrandbits(7) << 22, 1 << 29, 1 << 30, rng.getrandbits(9) << 22])
+                w &= ~(1 << 31)
+        else:
+            w = rng.choice([0, 0, rng.getrandbits(22), rng.getrandbits(31)])
+        words.append(w)
+    pl = b"".join(w.to_bytes(4, "little") for w in words)
+    pl += enc_fields(m0, len(pl))
+    pl += enc_fields(mk, len(pl))
+    pl += bytes(rng.randrange(256) for _ in range(rng.choice([0, 0, 0, 1, 2, 3, 6, 9])))
+    return pl, dict(k=k, shape=shape, m0=m0, mk=mk)
+
+
+def damaged_options(rng):
+    """options buffers as they arrive from the wire: built ones, truncated anywhere, with flipped bits, with a chain
+    that leaves the buffer, pure noise"""
+    r = rng.random()
+    pl, _ = build_options(rng)
+    pl = bytearray(pl)
+    if r < 0.3:
+        return bytes(pl)
+    if r < 0.55:
+        return bytes(pl[:rng.randint(0, len(pl))])             # truncation anywhere (also inside the present words)
+    if r < 0.7:
+        for _ in range(rng.randint(1, 3)):
+            i = rng.randrange(len(pl))
+            pl[i] ^= 1 << rng.randrange(8)
+        return bytes(pl)
+    if r < 0.8:
+        n = rng.choice([1, 2, 3, 8])
+        return b"".join((rng.getrandbits(31) | (1 << 31)).to_bytes(4, "little") for _ in range(n))   # chain never ends
+    if r < 0.9:
+        w = int.from_bytes(pl[:4], "little") | rng.getrandbits(32)
+        pl[:4] = w.to_bytes(4, "little")
+        return bytes(pl)
+    return bytes(rng.randrange(256) for _ in range(rng.choice([0, 1, 3, 4, 5, 7, 8, 12, 16, 33])))
+
+
+def parser_case(rng):
+    pl = damaged_options(rng)
+    if rng.random() < 0.7:
+        return [f"walk {hexs(pl)}"]
+    return [f"skipto {rng.randrange(22)} {hexs(pl)}"]
+
+
+def layout_case(rng, maxlen=12):
+    """a parsed header with a chain of present words (later words empty / other namespaces / unknown bits, or live),
+    then setters, add_option and serialize+reparse"""
+    pl, d = build_options(rng)
+    r = rng.random()
+    if r < 0.15 and len(pl) > 4:
+        pl = pl[:rng.randint(4, len(pl) - 1)]
+    ops = ["parse " + hexs(header(pl, version=rng.choice([0, 0, 1, 255]), pad=rng.choice([0, 0, 7])))]
+    for _ in range(rng.choice([1, 2, 3, 5, rng.randint(1, maxlen)])):
+        r = rng.random()
+        if r < 0.7:
+            ops.append(set_op(rng, rng.choice(NAMES)))
+        elif r < 0.8:
+            b = rng.randrange(20)
+            ops.append(f"add {b} {hexs(rand_value(rng, b))}")
+        elif r < 0.9:
+            ops.append("ser " + rng.choice(INNER + ["-"]))
+        else:
+            ops.append(f"walk {hexs(pl)}")
+    if rng.random() < 0.5:
+        ops.append("ser " + rng.choice(INNER))
+    return ops
+
+
 def classify(op, impl):
     w = op.split(" ")
     tag = w[0]
@@ -227,6 +339,14 @@ def run(chk):
     mc = [mutated_case(rng) for _ in range(nmut)]
     go_all(mc[:300], 300)
     go_all(mc[300:], 2000)
+    npar = 4000 if quick else 80000
+    pc = [parser_case(rng) for _ in range(npar)]
+    go_all(pc[:300], 300)
+    go_all(pc[300:], 4000)
+    nlay = 2500 if quick else 50000
+    lc = [layout_case(rng) for _ in range(nlay)]
+    go_all(lc[:300], 300)
+    go_all(lc[300:], 3000)
     for p in problems:
         # a theorem / generated table no longer checks: the run above was the search for a concrete failing input
         if not (stats.get("spec", 0) + stats.get("fault", 0)):
